@@ -95,14 +95,33 @@ def run(res, tier, seed):
             i_ = rng.randrange(1, max(2, len(lines_) - 1))
             lines_ = lines_[:i_] + [".data"] + lines_[i_:]
         cases.append(("\n".join(lines_), ("ok", None)))
+    # label arrangements of the property's quantifier: labels that end a file / stand before
+    # directives only x every instruction form that can name them, functions that reach no return,
+    # returns outside functions, calls into data labels. The generic error of the two recorded
+    # classes (F-18a: no return reachable, F-18b: target attached to no instruction) is not judged
+    # again here (the model proves these are its only sources: pipeline_failure_sources); crashes
+    # and every other outcome are.
+    from gen import labels as labelshapes
+    for t, shape in labelshapes.shapes(rng):
+        if shape.endswith(":include"):
+            continue
+        cases.append((t, ("ok", None) if shape == "ok" else ("finding-class", shape)))
     inputs = [[("m.s", t)] for t, _ in cases]
     impl, models, bad = correspondence("parse,cfg,run", inputs)
     first = None
-    dist = {"undefined": 0, "duplicate": 0, "ok": 0}
+    dist = {"undefined": 0, "duplicate": 0, "ok": 0, "finding-class": 0}
     for (t, (kind, what)), blk in zip(cases, impl):
         dist[kind] += 1
+        crash = [l for l in blk if l.startswith(("PANIC", "HANG", "CRASH"))]
+        if crash and first is None:
+            msg = crash[0] if not crash[0].startswith("PANIC") else "PANIC " + unhx(crash[0].split()[1])[:160]
+            first = {"what": f"the analysis does not explain anything, it crashes: {msg}", "source": t,
+                     "expectation": [kind, sorted(what) if isinstance(what, set) else what],
+                     "replay_cmd": "echo '%s' | %s" % (pipe_req("run", [("m.s", t)]), RVH_DEBUG)}
         if any(l.startswith("PERR") for l in blk):
             continue          # the property is about input that parses
+        if kind == "finding-class":
+            continue
         runl = [l for l in blk if l.startswith("RUN ")]
         titles = [unhx(field(l, "title")) for l in runl]
         e = None
